@@ -24,6 +24,22 @@ CLAIMS = {
          "C04_sub_eq_doc, C04_one_relation; refuted-witness theorems for F2 and F3. Tied to the code by the exhaustive enumeration the property names (patterns over {a,b,'',?,#} x keys over {a,b,''} to depth 3 quick / 4 thorough) "
          "on the real core vs the extracted model, plus an independent oracle of the documented relation. PARTIAL: the subscriber-tree traversal (add_matches) is covered by correspondence, its Coq characterisation is stated for the relation sub_match only.",
          CORE_NOTE, "Coq proof (nested-tree induction) + exhaustive extracted-model differential check"),
+ "C03": ("Theorems: C03_routing (the subscriber-tree traversal add_matches returns exactly the subscribers registered at positions P with sub_match P key, any tree/key/depth), C03_routing_is_documented, "
+         "C03_notify_exact (one accepted change produces, per registered matching subscriber, exactly the event of that change, suppressed iff unique and unchanged), C03_psubscribe (fresh channel, registration at the pattern, snapshot = pget at that moment, refused psubscribe is the identity), C03_F2_refuted. "
+         "PARTIAL: the history-level statement (queue = snapshot ++ one event per later accepted matching change, nothing after unsubscribe) is decided by the correspondence (exhaustive short histories with a subscription inserted at every position x unique x live-only, random long ones) and the independent event-specification oracle incl. the fold = pget check, not yet by a Coq induction. Socket-side forwarding order is runtime and not modelled.",
+         CORE_NOTE, "Coq proof of routing/emission content + extracted-model differential check + event-spec oracle"),
+ "C05": ("Theorems: C05_ls_exact, C05_ls_none_iff_nothing_below (ls on a well-formed clean tree = distinct next segments of the stored keys below the parent; NoSuchValue iff nothing at or below), C05_pls_union, C05_notification_routing, C05_import_refuted (known finding F18b). "
+         "PARTIAL: 'after every request the last list an ls-subscriber received equals ls' is decided by the correspondence (ls-subscriptions on root/existing/not-yet-existing parents at every position of exhaustive short histories, random long ones; projection count + last list) and the ls oracle, not yet by a Coq invariant.",
+         CORE_NOTE, "Coq proof of ls/pls exactness + extracted-model differential check + ls oracle"),
+ "C06": ("Theorems over the lock table as a function key path -> (holder, FIFO of waiting clients with their pending acquire requests): C06_lock_ok_iff_free_or_mine, C06_acquire (fresh id, confirmed at once iff free or mine, else queued), C06_fifo_queue, C06_release (only the holder frees; hand-over to the first waiter confirms exactly its requests; a foreign release keeps the holder, dequeues and cancels the caller). "
+         "PARTIAL: 'each request confirmed at most once over a whole history' and 'a session end releases/cancels everything of the client' are decided by the correspondence (every sequence <= 3/4 over 3 clients x 2 nested keys x {lock,acquire,release,disconnect}, random long ones, oneshot receivers polled after every request) and the independent LockSpec oracle.",
+         CORE_NOTE + " extended_monitoring = false.", "Coq step theorems on the lock map + exhaustive extracted-model differential check + LockSpec oracle"),
+ "C07": ("Theorems: C07_publish_streams_die_with_session (any non-crashing session end), C07_burial_touches_no_table / C07_last_will_touches_no_table; the model's do_disconnected is the ordered composition of guarded pdelete / forced set requests under the client's id, so C01/C04/C08 theorems apply to each. "
+         "PARTIAL: the closed form (state after = lastwill . bury . drop_sys) and the removal of subscriptions, ls-subscriptions and locks are decided by the correspondence (all disconnect orders of three clients with overlapping registrations, protected/malformed/re-registered registrations, random histories; projection = full dump incl. $SYS, all queues, lock confirmations, probes) and the independent session-end oracle.",
+         CORE_NOTE + " extended_monitoring = false.", "Coq table-bookkeeping theorems + extracted-model differential check + session-end oracle"),
+ "C08": ("Theorems: C08_guard_literal (for a literal key under $SYS an ordinary client passes the guard exactly for $SYS/clients/<own id>/{graveGoods,lastWill,clientName}[/..], else ReadOnlyKey), C08_refused_is_identity (a refused set/cset/delete/pdelete/spub-init changes nothing at all), "
+         "refuted-witness theorems C08_pdelete_wildcard_refuted (F4) and C08_publish_refuted (F5). Correspondence: sentinels under $SYS + internal observer; every key/pattern shape reaching $SYS (first segment $SYS/?/#/user, depth 3-4) x 11 request kinds incl. grave goods and last wills at disconnect; oracle: protected keys unchanged and unobserved except server bookkeeping, F4/F5 as known findings.",
+         CORE_NOTE, "Coq proof of the guard table + exhaustive extracted-model differential check + $SYS oracle"),
 }
 def chk(pid, text, note, technique):
     return {"property_id": pid, "quick_cmd": f"./wv check {pid} --tier quick", "thorough_cmd": f"./wv check {pid} --tier thorough",
